@@ -17,13 +17,17 @@
                                      Python: bmax t <= 8*cap (the Serializer's own buffer suffices)
        input_ok t bits           :=  whole bytes, |bits| + tsz t + 8 < 2^64
        buildable tg o t          :=  C, C++: not (omit_float_serialization_support /\ t has a float field).
-   OPTIONS (Spec/TargetsC03.v `c_option_coverage` / `cpp_option_coverage`, tied to the regenerated properties.yaml list below):
-     proved here        target_endianness (C), enable_serialization_asserts (C, C++; epilogue assertions), omit_float_serialization_support
-                        (C, C++; gate + independence where the program exists)
-     pairwise runs only enable_override_variable_array_capacity (C, C++), target_endianness (C++ support rendering), C++ std / std_flavor /
-                        allocator_* / ctor_convention (c++14, c++17, c++20, c++17-pmr builds)
-     not exercised      variable_array_type_include / _template / _constructor_args (only the default containers are built); cetl++14-17
-     no codec influence cast_format.
+   OPTIONS (Spec/TargetsC03.v `c_option_coverage` / `cpp_option_coverage`): the rows are tied to the regenerated properties.yaml list
+   (names, order) AND to the regenerated scan of the codec templates (Generated/Gen_C03Opt.v): a row says `reaches_codec` exactly when
+   the scan finds the option in the (de)serialization code - whether an option has codec influence is derived, not claimed by hand.
+     reaches the codec, proved here     target_endianness (C), enable_serialization_asserts (C, C++), omit_float_serialization_support (gate)
+     reaches the codec, pairwise runs   enable_override_variable_array_capacity (C, C++; no capacity macro defined), target_endianness (C++
+                                        support rendering), ctor_convention (default / uses-trailing-allocator / uses-leading-allocator)
+     reaches the codec, default only    cast_format (renders the saturation bounds / casts through the `literal` filter; a custom string is never built)
+     declarations only, pairwise runs   std, std_flavor (std, pmr), variable_array_type_include/_template (std::vector and a harness stub container),
+                                        allocator_include/_type, allocator_is_default_constructible (true only)
+     declarations only, not exercised   variable_array_type_constructor_args; cetl++14-17 / allocator_is_default_constructible = false (no CETL headers offline).
+   DOMAIN of the assertion statements: override off or without a capacity macro (`c03_assertion_domain`); see audit3 D3.
    Superseded first-round statements: History/C03_history.v. *)
 From Verif Require Import Wire WireThm WireThmRt WireThmExt WireThmValid F16 TargetsC03 TargetPreThm WireThmC03.
 From Verif Require Import Walker RefineSerBits ObsC03 ObsC03Thm ObsC03Tie.
@@ -42,7 +46,7 @@ Theorem c03_obs_des_is_spec : forall tg o t bits, wf_ty t = true -> buildable tg
 Proof. exact obs_des_is_spec. Qed.
 Print Assumptions c03_obs_des_is_spec.
 
-(* the compiled-in epilogue assertions never fire *)
+(* the compiled-in EPILOGUE assertions never fire (option domain: see c03_assertion_domain below) *)
 Theorem c03_ser_asserts_never_fire : forall on t v cap, wf_ty t = true -> align t = 8 ->
   ser_asserts on t (ser_spec t v cap) = ser_spec t v cap.
 Proof. exact ser_asserts_spec. Qed.
@@ -51,6 +55,23 @@ Print Assumptions c03_ser_asserts_never_fire.
 Theorem c03_des_asserts_never_fire : forall on t bits, des_asserts on (length bits) (des_spec t bits) = des_spec t bits.
 Proof. exact des_asserts_spec. Qed.
 Print Assumptions c03_des_asserts_never_fire.
+
+(* DOMAIN of the two statements above and of every observable of this file (audit3 D3): the observables are built on
+   WalkerSafe.std_cfg - the up-front capacity test of _serialize_impl is compiled in and no array capacity is overridden, i.e.
+   enable_override_variable_array_capacity is OFF, or on without any -D..._ARRAY_CAPACITY_ macro.  With a REDUCED capacity macro the
+   up-front test is compiled out and the inner assertion of _serialize_any aborts on a valid call (real defect D3, C04's subject):
+   that configuration is outside C03's statements.  Inside the domain the inner assertion never fires either (C04's
+   WalkerSafeThm.ser_asserts_never_fire_checked, instantiated with the configuration the C03 observables use). *)
+Theorem c03_assertion_domain : forall l,
+  WalkerSafe.up_front (WalkerSafe.std_cfg l) = true /\ (forall e n, WalkerSafe.ov (WalkerSafe.std_cfg l) e n = n) /\
+  WalkerSafe.little (WalkerSafe.std_cfg l) = l.
+Proof. exact obs_cfg_domain. Qed.
+Print Assumptions c03_assertion_domain.
+
+Theorem c03_inner_ser_assert_never_fires_in_domain : forall l t o capB, wf_ty t = true -> align t = 8 ->
+  fst (WalkerSafe.walk_ser_safe (WalkerSafe.std_cfg l) t o capB) <> Err EAssert.
+Proof. exact inner_ser_assert_never_fires. Qed.
+Print Assumptions c03_inner_ser_assert_never_fires_in_domain.
 
 (* ---- round trip through generated code: what target tg's serializer emitted (whatever follows in the buffer) is decoded by the
    deserializer of ANY target under ANY option set to the value after its cast-mode adjustment, consuming exactly those bytes ---- *)
@@ -146,8 +167,8 @@ Theorem c03_float_free_types_always_build : forall tg o t, uses_float t = false 
 Proof. exact float_free_buildable. Qed.
 Print Assumptions c03_float_free_types_always_build.
 
-(* ---- SOURCE TIES (regenerated on every run by the translators `optguard`, `c01`, `codec_tpl`) ---- *)
-From Verif Require OptGuard Gen_OptGuard Gen_C01 GenC01Thm TplTieBase TplTieData Gen_CodecTpl TplTie.
+(* ---- SOURCE TIES (regenerated on every run by the translators `optguard`, `c03opt`, `c01`, `codec_tpl`) ---- *)
+From Verif Require OptGuard Gen_OptGuard Gen_C03Opt Gen_C01 GenC01Thm TplTieBase TplTieData Gen_CodecTpl TplTie.
 
 (* the option classification above lists exactly the language options properties.yaml declares, in file order *)
 Theorem c03_c_options_classified :
@@ -159,6 +180,16 @@ Theorem c03_cpp_options_classified :
   map (fun x => s2n (fst x)) cpp_option_coverage = map fst Gen_OptGuard.cpp_defaults.
 Proof. exact cpp_options_classified. Qed.
 Print Assumptions c03_cpp_options_classified.
+
+(* whether an option reaches the (de)serialization code is DERIVED from the regenerated scan of the codec templates (translator `c03opt`):
+   `reaches_codec` of every row = "the scan found a direct mention or a filter/test reading the option" *)
+Theorem c03_c_coverage_matches_scan : rows_agree c_option_coverage Gen_C03Opt.c_codec_option_uses = true.
+Proof. exact c_coverage_matches_scan. Qed.
+Print Assumptions c03_c_coverage_matches_scan.
+
+Theorem c03_cpp_coverage_matches_scan : rows_agree cpp_option_coverage Gen_C03Opt.cpp_codec_option_uses = true.
+Proof. exact cpp_coverage_matches_scan. Qed.
+Print Assumptions c03_cpp_coverage_matches_scan.
 
 (* which array path a C build takes is decided by nunavut.lang.c.is_zero_cost_primitive - TRANSLATED from the source on every run
    (Generated/Gen_C01.v) and used by the C observable through WalkerSafe.bulk: it is true exactly on a little-endian target for
